@@ -332,6 +332,9 @@ pub struct BuildingG {
     pub needs: Vec<(Srv, Vec<i64>)>,
     pub interleave: bool,
     pub cogen_fuel: Car,
+    /// every value vector is repeated `tile` times (daily / hourly data: 365 ... 8 760 steps), cheaply:
+    /// the pattern of the n generated steps recurs, the length is what changes
+    pub tile: usize,
 }
 
 const ID_POOL: [i32; 10] = [0, 1, 2, 3, 7, -1, -2, 12, 5, 40];
@@ -632,8 +635,10 @@ pub fn building_g(p: &BParams) -> BoxedStrategy<BuildingG> {
                 needs,
                 any::<bool>(),
                 select(fuels),
+                // long series: about one building in 33 has 365, 1 000, 4 380 or 8 760 steps (total, after tiling)
+                if p.max_steps >= 12 { prop_oneof![485 => Just(0usize), 2 => Just(365usize), 2 => Just(1000usize), 5 => Just(4380usize), 6 => Just(8760usize)].boxed() } else { Just(0usize).boxed() },
             )
-                .prop_flat_map(move |(keep, regime, quiet_elec, id_off, needs, interleave, cogen_fuel)| {
+                .prop_flat_map(move |(keep, regime, quiet_elec, id_off, needs, interleave, cogen_fuel, long)| {
                     let no_elec = regime.is_some() && quiet_elec;
                     let min_sys = if regime.is_some() { 0 } else { 1 };
                     (
@@ -644,9 +649,10 @@ pub fn building_g(p: &BParams) -> BoxedStrategy<BuildingG> {
                         Just(needs),
                         Just(interleave),
                         Just(cogen_fuel),
+                        Just(long),
                     )
                 })
-                .prop_map(move |(keep, systems, regime, id_off, needs, interleave, cogen_fuel)| BuildingG {
+                .prop_map(move |(keep, systems, regime, id_off, needs, interleave, cogen_fuel, long)| BuildingG {
                     n,
                     keep,
                     id_off,
@@ -655,6 +661,7 @@ pub fn building_g(p: &BParams) -> BoxedStrategy<BuildingG> {
                     needs,
                     interleave,
                     cogen_fuel,
+                    tile: (long / keep.max(1)).max(1),
                 })
         })
         .boxed()
@@ -933,12 +940,23 @@ pub fn resolve(g: &BuildingG) -> Building {
     if g.interleave {
         items.sort_by_key(|(pos, _)| *pos);
     }
-    let lines: Vec<Line> = items.into_iter().map(|(_, l)| l).collect();
-    let needs = g
+    let mut lines: Vec<Line> = items.into_iter().map(|(_, l)| l).collect();
+    let mut needs: Vec<Need> = g
         .needs
         .iter()
         .map(|(sv, v)| Need { srv: *sv, vals: v.iter().take(n).map(|c| cents_f32(*c)).collect() })
         .collect();
+    let mut n = n;
+    if g.tile > 1 {
+        for l in lines.iter_mut() {
+            l.vals = l.vals.repeat(g.tile);
+        }
+        for nd in needs.iter_mut() {
+            nd.vals = nd.vals.repeat(g.tile);
+        }
+        n *= g.tile;
+        tags.push("long_series".into());
+    }
     Building { n, meta: vec![], needs, lines, tags }
 }
 
